@@ -1,6 +1,7 @@
 package task
 
 import (
+	"cmp"
 	"context"
 	"fmt"
 	"os"
@@ -168,6 +169,17 @@ func (e *Executor) RunTask(ctx context.Context, call *Call) error {
 			// --force only overrides the up-to-date check, not the preconditions
 			if _, err := e.areTaskPreconditionsMet(ctx, t); err != nil {
 				return err
+			}
+			// A forced run is still a run for the sources as they are now: record
+			// their fingerprint, as the up-to-date check of a plain run does.
+			if len(t.Sources) > 0 {
+				checker, err := fingerprint.NewSourcesChecker(cmp.Or(t.Method, e.Taskfile.Method), e.TempDir.Fingerprint, e.Dry)
+				if err != nil {
+					return err
+				}
+				if _, err := checker.IsUpToDate(t); err != nil {
+					return err
+				}
 			}
 		}
 		if !skipFingerprinting {
